@@ -205,3 +205,29 @@ Theorem C03_trie_longest_array : forall m, 0 <= l_base m -> 0 <= l_wb m <= 57 ->
     | None => forall i, b <= i < e -> lword_of recs i <> word
     end.
 Proof. exact tlong_refines. Qed.
+
+(* ---- end to end: the lookup over the MEMORY of the trie built from a forest of n-grams is the lookup in the forest ----------------
+   (array = false: `trie`, array = true: `trie -a cfg`.)  F: any forest whose top level is the dense unigram list (word id = index),
+   whose sibling chains are strictly increasing by word id, with ids <= the vocabulary size < 2^32, payloads 32-bit patterns and
+   fewer than 2^57 n-grams per order (the code's own limits).  For every n-gram k of word ids: TrieSearch's unigram index + one
+   BoundedSortedUniformFind (Pivot32) per further word over the bit-packed arrays written by Insert/FinishedLoading through the generated
+   WriteInt57/WriteNonPositiveFloat31/WriteFloat32 -- with the ArrayBhiksha offset tables when array = true -- finds k exactly when the
+   forest holds k, returns its probability (sign bit forced on beyond unigrams), its back-off below the highest order, and a child range
+   whose length is the number of n-grams that extend k by one word (so independent_left <=> none). *)
+From Kenlm Require Import C03.TrieWalkProofs C03.TrieBuiltOk.
+Theorem C03_trie_memory_is_forest_lookup : forall (array : bool) cfg n (F : forest pb),
+  let vocab := flen pb F in
+  (2 <= n)%nat -> (depth pb F <= n)%nat -> dense_from pb 0 F -> fsorted_from (-1) F -> fvals vocab F ->
+  vocab < 2 ^ 32 -> 0 <= cfg -> (forall j, Z.of_nat (length (lev pb j F)) < 2 ^ 57) ->
+  forall k, Forall (fun w => 0 <= w <= vocab) k ->
+  match lookup pb F k with
+  | None => twalk array (mk_trie array cfg (built pb n F)) k = Some None
+  | Some (v, c) =>
+      exists got, twalk array (mk_trie array cfg (built pb n F)) k = Some (Some got) /\
+        match k with
+        | [_] => fst (fst got) = v /\ snd got - snd (fst got) = flen pb c
+        | _ => fst (fst (fst got)) = norm_p (fst v) /\
+               (Nat.eqb (length k) n = false -> snd (fst (fst got)) = snd v /\ snd got - snd (fst got) = flen pb c)
+        end
+  end.
+Proof. exact trie_memory_is_forest_lookup. Qed.
